@@ -697,31 +697,65 @@ def calculators():
 
 
 # ----------------------------------------------------------------------------- running the real code
-def run_real(batch):
-    """batch: [(dirid, calc, extra, xml)] -> [(status, payload)]; a crash is attributed to its case"""
+PER_CASE = [False]   # set after a batch timed out: one driver process per case from then on
+BATCH_TIMEOUT = 90   # s; a 300-case batch normally takes ~1 s
+
+
+def run_real(batch, raw=False, one_process=False):
+    """batch: [(dirid, calc, extra, xml)] -> [(status, payload)]; a crash is attributed to its case.
+    raw: payload stays the output line (string); one_process: never split the batch (reuse histories)"""
     results = []
     start = 0
     while start < len(batch):
+        todo = batch[start:start + 1] if (PER_CASE[0] and not one_process) else batch[start:]
         data = b""
-        for dirid, calc, extra, xml in batch[start:]:
+        for dirid, calc, extra, xml in todo:
             x = xml.encode()
             data += ("CASE %s %s %s %d\n" % (DIRS[dirid], calc, ",".join(extra) or "-", len(x))).encode() + x
-        p = subprocess.run([DRV], input=data, stdout=subprocess.PIPE, stderr=subprocess.PIPE)
+        try:
+            p = subprocess.run([DRV], input=data, stdout=subprocess.PIPE, stderr=subprocess.PIPE, timeout=BATCH_TIMEOUT)
+        except subprocess.TimeoutExpired:
+            if one_process or len(todo) == 1:
+                results.append(("CRASH", "driver did not finish within %d s" % BATCH_TIMEOUT))
+                start += 1
+                if one_process:
+                    return results + [("CRASH", "not run")] * (len(batch) - len(results))
+                continue
+            PER_CASE[0] = True      # process-wide state seems to pile up: isolate every case
+            continue
         lines = p.stdout.decode(errors="replace").split("\n")
         n = 0
         for ln in lines:
             if ln.startswith("OK "):
-                results.append(("OK", json.loads(ln[3:])))
+                results.append(("OK", ln if raw else json.loads(ln[3:])))
             elif ln.startswith("ERR "):
-                results.append(("ERR", json.loads(ln[4:])))
+                results.append(("ERR", ln if raw else json.loads(ln[4:])))
             else:
                 continue
             n += 1
         start += n
-        if start < len(batch):  # driver died on case `start`
+        if n < len(todo):  # driver died on case `start`
             results.append(("CRASH", "driver exited with %s: %s" % (p.returncode, p.stderr.decode(errors="replace")[-300:])))
             start += 1
     return results
+
+
+def repeat_history(dirid, calc, extra, xml, other):
+    """K: the same call three times in ONE driver process (fresh OptionsHandler objects, same process), with a call for
+    another calculator in between: every answer must be byte-identical to the first (no state outside the objects)."""
+    o = other
+    hist = [(dirid, calc, extra, xml), (dirid, calc, extra, xml), o, (dirid, calc, extra, xml)]
+    res = run_real(hist, raw=True, one_process=True)
+    first = res[0]
+    for k in (1, 3):
+        if res[k] != first:
+            r, f = str(res[k][1]), str(first[1])
+            d = 0
+            while d < len(r) and d < len(f) and r[d] == f[d]:
+                d += 1
+            return False, "same-process-repeat-differs", ("call %d of the same ProcessUserInput in one process answers differently "
+                                                          "from call 1 (first difference at byte %d: %r vs %r)" % (k + 1, d, r[max(0, d - 40):d + 60], f[max(0, d - 40):d + 60]))
+    return True, "", ""
 
 
 def case_string(dirid, calc, extra, xml):
@@ -735,6 +769,8 @@ def evaluate(dirid, calc, extra, xml, real):
     return compare(dirid, calc, tuple(extra), user, real)
 
 
+REP_OTHER = ("xtp", "neighborlist", (), "<options><neighborlist><constant>2</constant></neighborlist></options>")
+
 RULE = ("alphabet: every calculator description in xtp/share/xtp/xml (28 files, linked sub-packages spliced in) plus the 5 "
         "well-formed descriptions of tools' own test data; user trees: A nothing supplied; B every single declared leaf x "
         "{its default, every legal choice word / 3-4 legal literals of its type, illegal literals of its type, free text with "
@@ -746,7 +782,9 @@ RULE = ("alphabet: every calculator description in xtp/share/xtp/xml (28 files, 
         "every template x every leaf or OPTIONAL subtree L below it: 2 (thorough also 3) repetitions where some supply L and the "
         "others omit it, all arrangements (each repetition must resolve against the pristine template); J every unchecked section U "
         "filled with free content x one undeclared name below every other node of the description (ancestors of U included) x "
-        "U's branch first/last in document order, and declared siblings of U (each, and all) supplied before/after U. B,C,H both as is and "
+        "U's branch first/last in document order, and declared siblings of U (each, and all) supplied before/after U; K per "
+        "calculator the empty and the completed input (thorough: + one input per description node, first 40) called 3x in ONE driver "
+        "process with a neighborlist call in between: answers byte-identical (differential, no process-wide state). B,C,H both as is and "
         "with all REQUIRED nodes of the touched sections filled in; D also with a user-side unchecked= attribute (two readings allowed). "
         "oracle: independent interpreter of the description format predicting the full resolved tree (path->trimmed value for "
         "declared leaves and unchecked copies, presence for sections) or 'rejected, message names one of X'. "
@@ -755,6 +793,12 @@ RULE = ("alphabet: every calculator description in xtp/share/xtp/xml (28 files, 
 
 def main():
     a = pybsx.parse()
+    if a.case is not None and a.case.startswith("rep|"):
+        _, dirid, calc, extra, xml = a.case.split("|", 4)
+        ok, key, what = repeat_history(dirid, calc, tuple(e for e in extra.split(",") if e), xml, REP_OTHER)
+        print("case:", a.case)
+        print("verdict:", "holds" if ok else "FAILS key=%s: %s" % (key, what))
+        sys.exit(0 if ok else 3)
     if a.case is not None:
         dirid, calc, extra, xml = a.case.split("|", 3)
         extra = [e for e in extra.split(",") if e]
@@ -793,6 +837,33 @@ def main():
         batch.clear()
         meta.clear()
 
+    # K: process-level reuse histories (run first: they also tell whether batching the driver is sound)
+    for dirid, calc in calculators():
+        desc = load_desc(dirid, calc)
+        c0 = Ctx(desc)
+        users = [c0.user, c0.completed().user]
+        if a.tier == "thorough":
+            for p in walk(desc, [], [])[:40]:
+                c = Ctx(desc)
+                u = c.ensure(p)
+                if not p[-1].kids:
+                    u.value = second_legal(p[-1])
+                users.append(c.completed().user)
+        seenk = set()
+        for user in users:
+            xml = to_xml(user.kids[0])
+            if xml in seenk:
+                continue
+            seenk.add(xml)
+            if a.mine(i):
+                ok, key, what = repeat_history(dirid, calc, (), xml, REP_OTHER)
+                rep.eval()
+                rep.count("family.K-same-process-repeat")
+                rep.cls(("K", ok))
+                if not ok:
+                    rep.fail(key, "[%s K-repeat] %s" % (calc, what), "rep|" + case_string(dirid, calc, (), xml))
+            i += 1
+
     for dirid, calc in calculators():
         seen = set()
         for fam, extra, user in gen_cases(dirid, calc, a.tier):
@@ -808,6 +879,8 @@ def main():
                     flush()
             i += 1
     flush()
+    if PER_CASE[0]:
+        rep.cap("a driver batch did not finish within %d s; the remaining cases were run one per process" % BATCH_TIMEOUT)
     if a.shard == 0:
         rep.count("cases_in_space", i)
     rep.write(a.out)
